@@ -47,6 +47,20 @@ def configs(tier: str):
                     for B in (1, 2):
                         out.append(default_cfg(N=1, B=B, errors=errors, failures=failures, cfe=cfe, t=1, offset='zero', finite=True,
                                                faults=True, hook_faults=(B == 1), entry=entry))
+    # solve_period on other span types (NumPy array: fallback locator; strings)
+    for kind in ('nd', 'str'):
+        for B in (1, 2):
+            for t in (0, 1, 2):
+                for failures in ('raise', 'ignore'):
+                    out.append(default_cfg(N=1, B=B, failures=failures, t=t, offset='sym' if t == 1 else 'zero', entry='solve_period', span_kind=kind))
+    # hooks that WRITE: the pre-solution hook stores a value into a check variable, the post-solution hook into another
+    for B in (1, 2) if tier == 'quick' else (0, 1, 2, 3):
+        for N in (1, 2):
+            for failures in ('raise', 'ignore'):
+                for entry in ('solve_t', 'solve_period'):
+                    if tier == 'quick' and (N == 2 and entry == 'solve_period'):
+                        continue
+                    out.append(default_cfg(N=N, B=B, failures=failures, t=1, offset='zero', pre_write=True, post_write=True, entry=entry))
     # ARBITRARY PRE-STATE and HISTORIES: the period may already carry any status (a re-solve), and the state may have been
     # reached through earlier public calls (every period solved before, read paths used, object copied / reindexed,
     # series replaced by whole-series assignment) -- nothing remembered from before may influence this solve
